@@ -1,0 +1,125 @@
+//go:build verif
+
+package ipv4
+
+// Contracts, spec functions and lemma harnesses for the deductive verifier in /verif (govc).
+// This file is compiled only with -tags verif; it adds no behaviour to the package.
+//
+// Property C60 (IPv4 part): Header.Marshal / Header.Parse field layout on the platform the
+// packages are loaded for (linux: every 16-bit field big-endian, TotalLen as is) and the field
+// round trip.
+
+//@ func (ICMPType).Protocol(typ) (p)
+//@   ensures p == 1
+
+// be16 is the big-endian 16-bit integer at b[off:off+2].
+//
+//@ pure
+func be16(b []byte, off int) int {
+	return int(b[off])<<8 | int(b[off+1])
+}
+
+// Header.Marshal: 20 + len(Options) bytes; version 4 and the header length in 32-bit words in byte
+// 0, TOS, total length, ID, flags (3 bits) and fragment offset (13 bits), TTL, protocol, checksum
+// as stored in h, 4-byte source and destination, options.
+//
+//@ func (*Header).Marshal(h) (b, err)
+//@   requires h != nil ==> len(h.Options) <= 1<<16
+//@   ensures  h == nil || h.Len < HeaderLen ==> err != nil
+//@   ensures  h != nil && h.Len >= HeaderLen && len(h.Dst) == 4 ==> err == nil
+//@   ensures  h != nil && len(h.Dst) != 4 && len(h.Dst) != 16 ==> err != nil
+//@   ensures  err == nil ==> b != nil && len(b) == HeaderLen + len(h.Options) && fresh(b)
+//@   ensures  err == nil ==> b[0] == byte(Version<<4 | ((HeaderLen+len(h.Options))>>2)&0x0f) && b[1] == byte(h.TOS) && b[8] == byte(h.TTL) && b[9] == byte(h.Protocol)
+//@   ensures  err == nil ==> be16(b, 2) == h.TotalLen&0xffff && be16(b, 4) == h.ID&0xffff && be16(b, 10) == h.Checksum&0xffff
+//@   ensures  err == nil ==> be16(b, 6) == (h.FragOff&0x1fff | (int(h.Flags)&7)<<13)
+//@   ensures  err == nil && len(h.Dst) == 4 ==> forall k int :: 0 <= k && k < 4 ==> b[16+k] == h.Dst[k]
+//@   ensures  err == nil && len(h.Src) == 4 ==> forall k int :: 0 <= k && k < 4 ==> b[12+k] == h.Src[k]
+//@   ensures  err == nil ==> forall k int :: 0 <= k && k < len(h.Options) ==> b[HeaderLen+k] == h.Options[k]
+//@   allocates
+
+// Header.Parse: the inverse layout; errors exactly for a nil header or buffer, fewer than 20 bytes
+// or fewer bytes than the header length announces.
+//
+//@ func (*Header).Parse(h, b) (err)
+//@   requires h != nil ==> !samebase(h.Options, b)
+//@   ensures  err == nil <==> (h != nil && b != nil && len(b) >= HeaderLen && len(b) >= int(b[0]&0x0f)<<2)
+//@   ensures  err == nil ==> h.Version == int(b[0]>>4) && h.Len == int(b[0]&0x0f)<<2 && h.TOS == int(b[1]) && h.TTL == int(b[8]) && h.Protocol == int(b[9])
+//@   ensures  err == nil ==> h.TotalLen == be16(b, 2) && h.ID == be16(b, 4) && h.Checksum == be16(b, 10)
+//@   ensures  err == nil ==> h.FragOff == be16(b, 6)&0x1fff && int(h.Flags) == be16(b, 6)>>13
+//@   ensures  err == nil ==> len(h.Src) == 16 && h.Src[12] == b[12] && h.Src[13] == b[13] && h.Src[14] == b[14] && h.Src[15] == b[15] && h.Src[10] == 0xff && h.Src[11] == 0xff
+//@   ensures  err == nil ==> len(h.Dst) == 16 && h.Dst[12] == b[16] && h.Dst[13] == b[17] && h.Dst[14] == b[18] && h.Dst[15] == b[19] && h.Dst[10] == 0xff && h.Dst[11] == 0xff
+//@   ensures  err == nil && int(b[0]&0x0f)<<2 > HeaderLen ==> len(h.Options) == int(b[0]&0x0f)<<2 - HeaderLen && (forall k int :: 0 <= k && k < len(h.Options) ==> h.Options[k] == b[HeaderLen+k])
+//@   ensures  err == nil && int(b[0]&0x0f)<<2 <= HeaderLen ==> len(h.Options) == old(len(h.Options))
+//@   modifies *h, spare(h.Options), elems(h.Options)
+//@   allocates
+
+// lemmaHeaderRoundTrip{Fields,Addrs,Options}: a header whose fields fit their wire widths (version
+// 4, Len equal to 20 + len(Options), options a multiple of 4 bytes and at most 40, 8/16-bit fields
+// in range, 3-bit flags, 13-bit fragment offset, 4-byte addresses) is parsed back from its
+// encoding with the same scalar fields, the addresses in 16-byte IPv4-mapped form, and the same
+// option bytes (j, k: arbitrary positions in the addresses and the options).
+//
+//@ lemma
+//@ requires h != nil && h.Version == Version && h.Len == HeaderLen + len(h.Options) && len(h.Options) <= 40 && len(h.Options)&3 == 0
+//@ requires 0 <= h.TOS && h.TOS <= 0xff && 0 <= h.TTL && h.TTL <= 0xff && 0 <= h.Protocol && h.Protocol <= 0xff
+//@ requires 0 <= h.TotalLen && h.TotalLen <= 0xffff && 0 <= h.ID && h.ID <= 0xffff && 0 <= h.Checksum && h.Checksum <= 0xffff
+//@ requires 0 <= h.Flags && h.Flags <= 7 && 0 <= h.FragOff && h.FragOff <= 0x1fff
+//@ requires len(h.Src) == 4 && len(h.Dst) == 4
+//@ requires 0 <= j && j < 4 && 0 <= k && (k < len(h.Options) || len(h.Options) == 0)
+//@ ensures ok
+func lemmaHeaderRoundTripFields(h *Header, j, k int) (ok bool) {
+	b, err := h.Marshal()
+	if err != nil {
+		return false
+	}
+	var g Header
+	if g.Parse(b) != nil {
+		return false
+	}
+	return g.Version == h.Version && g.Len == h.Len && g.TOS == h.TOS && g.TotalLen == h.TotalLen && g.ID == h.ID &&
+		g.Flags == h.Flags && g.FragOff == h.FragOff && g.TTL == h.TTL && g.Protocol == h.Protocol && g.Checksum == h.Checksum
+}
+
+//@ lemma
+//@ requires h != nil && h.Version == Version && h.Len == HeaderLen + len(h.Options) && len(h.Options) <= 40 && len(h.Options)&3 == 0
+//@ requires 0 <= h.TOS && h.TOS <= 0xff && 0 <= h.TTL && h.TTL <= 0xff && 0 <= h.Protocol && h.Protocol <= 0xff
+//@ requires 0 <= h.TotalLen && h.TotalLen <= 0xffff && 0 <= h.ID && h.ID <= 0xffff && 0 <= h.Checksum && h.Checksum <= 0xffff
+//@ requires 0 <= h.Flags && h.Flags <= 7 && 0 <= h.FragOff && h.FragOff <= 0x1fff
+//@ requires len(h.Src) == 4 && len(h.Dst) == 4
+//@ requires 0 <= j && j < 4 && 0 <= k && (k < len(h.Options) || len(h.Options) == 0)
+//@ ensures ok
+func lemmaHeaderRoundTripAddrs(h *Header, j, k int) (ok bool) {
+	b, err := h.Marshal()
+	if err != nil {
+		return false
+	}
+	var g Header
+	if g.Parse(b) != nil {
+		return false
+	}
+	return len(g.Src) == 16 && len(g.Dst) == 16 && g.Src[12+j] == h.Src[j] && g.Dst[12+j] == h.Dst[j] &&
+		g.Src[10] == 0xff && g.Src[11] == 0xff && g.Dst[10] == 0xff && g.Dst[11] == 0xff
+}
+
+//@ lemma
+//@ requires h != nil && h.Version == Version && h.Len == HeaderLen + len(h.Options) && len(h.Options) <= 40 && len(h.Options)&3 == 0
+//@ requires 0 <= h.TOS && h.TOS <= 0xff && 0 <= h.TTL && h.TTL <= 0xff && 0 <= h.Protocol && h.Protocol <= 0xff
+//@ requires 0 <= h.TotalLen && h.TotalLen <= 0xffff && 0 <= h.ID && h.ID <= 0xffff && 0 <= h.Checksum && h.Checksum <= 0xffff
+//@ requires 0 <= h.Flags && h.Flags <= 7 && 0 <= h.FragOff && h.FragOff <= 0x1fff
+//@ requires len(h.Src) == 4 && len(h.Dst) == 4
+//@ requires 0 <= j && j < 4 && 0 <= k && (k < len(h.Options) || len(h.Options) == 0)
+//@ ensures ok
+func lemmaHeaderRoundTripOptions(h *Header, j, k int) (ok bool) {
+	b, err := h.Marshal()
+	if err != nil {
+		return false
+	}
+	var g Header
+	if g.Parse(b) != nil {
+		return false
+	}
+	if len(h.Options) == 0 {
+		return len(g.Options) == 0
+	}
+	return len(g.Options) == len(h.Options) && g.Options[k] == h.Options[k]
+}
